@@ -33,6 +33,8 @@ def op_text(R, t, style):
         f = Fraction(t[i], sglive.TS)
         if style == 4 and f:
             f = f - 1            # the same translation written negative (modulo a lattice vector): y-1/4 for y+3/4
+        if style in (5, 6):
+            f = f + (1 + i if style == 5 else -2)      # shifted by whole lattice vectors: x+1, y+3/2, z-2
         tt = ""
         if f:
             tt = "%+d/%d" % (f.numerator, f.denominator) if style != 2 else "%+.6f" % float(f)
@@ -132,6 +134,10 @@ def run(ctx):
                 r = GetSpaceGroup(pk).number
             except ValueError:
                 r = -1
+            except Exception as e:     # noqa: only ValueError is the documented rejection
+                r = -2
+                ctx.violation("GetSpaceGroup(%r) raised %s instead of returning a setting or ValueError" % (pk, type(e).__name__),
+                              {"identifier": repr(pk), "exception": type(e).__name__}, key="lookup-exception:%s" % type(e).__name__)
             ctx.count(("id", pk))
             if r != m:
                 bad.append("GetSpaceGroup(%r): implementation %s, model %s" % (pk, r, m))
@@ -180,7 +186,7 @@ def run(ctx):
         for trial in range(2):
             perm = ops[:]
             ctx.rng.shuffle(perm)
-            for style in (0, 1, 2, 3, 4):
+            for style in (0, 1, 2, 3, 4, 5, 6):
                 try:
                     texts = [op_text(R, t, style) for R, t in perm]
                     live = [getSymOp(s) for s in texts]
